@@ -20,13 +20,25 @@ VERIF = os.path.dirname(os.path.dirname(os.path.abspath(__file__)))
 REPO = os.environ.get("VERIF_REPO", "/repo")
 OUT = os.path.join(VERIF, "out")
 SPEC = os.path.join(VERIF, "spec")
-BIN = os.path.join(OUT, "bin")
+# with VERIF_REPO (a scratch copy of the repository with a seeded change) every process builds into its own
+# directory, so that several such runs and the normal checks never overwrite each other's binaries
+_ALT = REPO != "/repo"
+BIN = os.path.join(OUT, "bin.%d" % os.getpid()) if _ALT else os.path.join(OUT, "bin")
 HARNESS = os.path.join(BIN, "evyverif")
 EVY = os.path.join(BIN, "evy")
 NCPU = min(16, os.cpu_count() or 4)
 
 GOENV = dict(os.environ, GOFLAGS="-mod=mod", GOPROXY="off", GOSUMDB="off",
              GOTOOLCHAIN="local", CGO_ENABLED="0")
+
+
+if _ALT:
+    import atexit
+
+    def _cleanup_alt():
+        shutil.rmtree(BIN, ignore_errors=True)
+        shutil.rmtree(os.path.join(OUT, "harness-alt.%d" % os.getpid()), ignore_errors=True)
+    atexit.register(_cleanup_alt)
 
 
 class HarnessError(Exception):
@@ -63,7 +75,7 @@ def build_harness():
     gomod = open(os.path.join(hdir, "go.mod")).read()
     if REPO != "/repo":
         gomod = gomod.replace("=> /repo", "=> " + REPO)
-        hdir2 = os.path.join(OUT, "harness-alt")
+        hdir2 = os.path.join(OUT, "harness-alt.%d" % os.getpid())
         shutil.rmtree(hdir2, ignore_errors=True)
         shutil.copytree(hdir, hdir2)
         open(os.path.join(hdir2, "go.mod"), "w").write(gomod)
